@@ -10,6 +10,9 @@ Call monitors (wrapped in place, so the solids built inside the shell functions 
   generate_mask                 post(generate_mask): the named shape (own parser) on the returned cubic box, default centre.
   soft_range                    every shape function with 0 < sigma <= 3: all values in [-1e-9, 1+1e-9], box as requested.
   soft_core                     sphere/cylinder/ellipsoid with outward blur: every voxel of the requested hard shape >= 1 - 1e-3.
+                                OPEN finding `ellipsoid-eccentric-core`: keyed only by classify_eccentric (ellipsoid_mask, range clause
+                                held, max radius >= 3 min radius, every deficient voxel within ceil(5 sigma)+1 voxels of the requested
+                                surface); any other deficit (near-isotropic, deep inside, sphere, cylinder) stays a violation.
   union, intersection, subtraction, difference
                                 post: for lists of binary masks OR / AND / sequential AND-NOT / XOR (difference: pairs only).
   algebra_inputs                every judged algebra call: arrays (dtype, shape, bytes) and files (bytes) identical afterwards.
@@ -46,7 +49,7 @@ CLASSES = ["sphere_interior", "sphere_boundary", "sphere_defaults", "cyl_interio
            "ell_even", "ell_ties", "ell_eccentric", "s_shell", "e_shell", "named",
            "alg_pair", "alg_dtypes", "alg_list", "alg_soft", "alg_files", "alg_real_outputs"]
 
-KEY_ECC = "ellipsoid-eccentric-core"     # mechanism key (effective only if the lead lists it as open in KNOWN_FINDINGS.txt)
+KEY_ECC = "ellipsoid-eccentric-core"     # mechanism key of the OPEN finding in KNOWN_FINDINGS.txt; see classify_eccentric
 
 
 def plan(tier):
@@ -56,11 +59,11 @@ def plan(tier):
                                "soft_range": 1500, "soft_core": 700, "union": 1500, "intersection": 1500, "subtraction": 800,
                                "difference": 500, "algebra_inputs": 6000, "algebra_range": 6000, "shell_relational": 150,
                                "name_vs_direct": 80, "file_vs_array": 250})
-    return dict(n_cases=14400, shards=16, classes=CLASSES, timeout_s=3000,
-                min_evals={"sphere": 12000, "cylinder": 6000, "ellipsoid": 8000, "s_shell": 1200, "e_shell": 800, "generate_mask": 700,
-                           "soft_range": 10000, "soft_core": 5000, "union": 10000, "intersection": 10000, "subtraction": 5000,
-                           "difference": 3000, "algebra_inputs": 30000, "algebra_range": 30000, "shell_relational": 1200,
-                           "name_vs_direct": 700, "file_vs_array": 2000})
+    return dict(n_cases=43200, shards=16, classes=CLASSES, timeout_s=3000,
+                min_evals={"sphere": 40000, "cylinder": 25000, "ellipsoid": 30000, "s_shell": 4000, "e_shell": 2500, "generate_mask": 1500,
+                           "soft_range": 35000, "soft_core": 17000, "union": 35000, "intersection": 35000, "subtraction": 18000,
+                           "difference": 12000, "algebra_inputs": 120000, "algebra_range": 120000, "shell_relational": 4000,
+                           "name_vs_direct": 2000, "file_vs_array": 6000})
 
 
 # =================================================================================================
@@ -74,7 +77,7 @@ def _args_w(A, keys):
     return {k: A.get(k) for k in keys if k in A}
 
 
-def _soft(ctx, fn, A, dom, result, core_fn=None, key=None):
+def _soft(ctx, fn, A, dom, result, core_fn=None):
     """sigma > 0: range for every shape function, core for outward blur"""
     N = dom["N"]
     w = O.compare_range(result, N)
@@ -82,7 +85,7 @@ def _soft(ctx, fn, A, dom, result, core_fn=None, key=None):
     if w is None and core_fn is not None and bool(A.get("gaussian_outwards", False)):
         core = core_fn()
         w = O.compare_core(result, core)
-        ctx.check("soft_core", w is None, None if w is None else dict(w, function=fn, args=_args_w(A, A.keys())), key=key if w else None)
+        ctx.check("soft_core", w is None, None if w is None else dict(w, function=fn, args=_args_w(A, A.keys())))
 
 
 # ---- sphere ------------------------------------------------------------------------------------------------
@@ -127,7 +130,7 @@ def _cyl_dom(A):
     r = O.rational(min(N[:2]) // 2 if A["radius"] is None else A["radius"])
     h = O.rational(N[2] if A["height"] is None else A["height"])
     s = O.sigma_of(A["gaussian"])
-    if c is None or r is None or r < 0 or h is None or h < 0 or s is None:
+    if c is None or r is None or r < 1 or h is None or h < 1 or s is None:
         return None
     return {"N": N, "c": c, "r": r, "hh": O.floor_half(h), "sigma": s}
 
@@ -184,9 +187,35 @@ def _ell_post(ctx, A, old, result):
                 w["lhs_over_rhs"] = float(lhs[w["voxel"]]) / float(rhs)
         ctx.check("ellipsoid", w is None, w)
     else:
-        ecc = max(d["radii"]) >= 8 * min(d["radii"])
-        _soft(ctx, "ellipsoid_mask", A, d, result, core_fn=lambda: O.ellipsoid(d["N"], d["c"], d["radii"])[0],
-              key=KEY_ECC if ecc else None)
+        fn = "ellipsoid_mask"
+        w = O.compare_range(result, d["N"])
+        ctx.check("soft_range", w is None, None if w is None else dict(w, function=fn, args=_args_w(A, A.keys())))
+        if w is not None or not bool(A["gaussian_outwards"]):
+            return
+        core = O.ellipsoid(d["N"], d["c"], d["radii"])[0]
+        w = O.compare_core(result, core)
+        key = None
+        if w is not None:
+            w.update(function=fn, args=_args_w(A, A.keys()))
+            key, why = classify_eccentric(d, np.asarray(result, dtype=float), core)
+            w["classifier"] = why
+        ctx.check("soft_core", w is None, w, key=key)
+
+
+def classify_eccentric(d, res, core):
+    """Mechanism classifier of the open finding `ellipsoid-eccentric-core` (the range clause held, only the core clause fails):
+    the radii are strongly unequal (max >= 3 min) AND every deficient core voxel lies within ceil(5 sigma)+1 voxels of the
+    requested surface (edge erosion by the blur, not a wrong shape).  Anything else stays an unkeyed violation."""
+    radii = d["radii"]
+    if max(radii) < 3 * min(radii):
+        return None, "radii not strongly unequal (max < 3 min)"
+    D = int(np.ceil(5 * d["sigma"])) + 1
+    depth = O.ellipsoid_depth(d["N"], d["c"], radii, D + 2)
+    bad = core & (res < 1 - O.CORE_TOL)
+    deepest = float(depth[bad].max())
+    if deepest > D:
+        return None, "a deficient core voxel lies %.2f voxels below the requested surface (> %d)" % (deepest, D)
+    return KEY_ECC, "edge erosion: %d deficient voxels, deepest %.2f voxels below the surface (<= %d), radii %s" % (int(bad.sum()), deepest, D, list(radii))
 
 
 # ---- shells ------------------------------------------------------------------------------------------------
@@ -550,8 +579,6 @@ def gen_shape(rng, cls, tier):
             case["r"] = _radius(rng, N[:2], str(rng.choice(["small", "medium"])))
             cz_room = N[2] // 4
             case["h"] = int(rng.integers(1, max(2, 2 * cz_room)))
-            if rng.random() < 0.15:
-                case["r"], case["h"] = (None, case["h"]) if rng.random() < 0.5 else (case["r"], None)
         elif cls == "cyl_z_crossing":
             ck = "anywhere"
             case["r"] = _radius(rng, N[:2], str(rng.choice(["small", "medium", "large"])))
@@ -560,6 +587,11 @@ def gen_shape(rng, cls, tier):
             ck = str(rng.choice(["corner", "face", "edge"]))
             case["r"] = _radius(rng, N[:2], str(rng.choice(["medium", "large", "beyond"])))
             case["h"] = int(rng.integers(1, 2 * N[2]))
+        u = rng.random()
+        if u < 0.12:
+            case["r"] = None                       # documented default: half of the smaller of the x and y sizes
+        elif u < 0.24:
+            case["h"] = None                       # documented default: the z size
         case["calls"] = _soft_calls(rng)
     elif cls.startswith("ell"):
         case["fn"] = "ellipsoid"
@@ -569,9 +601,24 @@ def gen_shape(rng, cls, tier):
             t = TIE_RADII[int(rng.integers(0, len(TIE_RADII)))]
             case["radii"] = tuple(int(v) for v in rng.permutation(t))
         elif cls == "ell_eccentric":
-            ck = str(rng.choice(["default", "anywhere", "face", "corner"]))
-            rr = [int(rng.integers(1, 4)), int(rng.integers(1, 6)), int(rng.integers(10, 61))]
-            case["radii"] = tuple(int(v) for v in rng.permutation(rr))
+            if rng.random() < 0.6:
+                # a long thin ellipsoid whose tip lies inside the box (where the outward blur erodes the requested core)
+                ax = int(rng.integers(0, 3))
+                N = list(N)
+                N[ax] = int(rng.choice([40, 44, 48]))
+                N = tuple(N)
+                a = int(rng.integers(15, N[ax]))
+                rr = [int(rng.integers(1, 3)), int(rng.integers(1, 4))]
+                rr.insert(ax, a)
+                case["radii"] = tuple(rr)
+                c = [int(rng.integers(n // 3, (2 * n) // 3 + 1)) for n in N]
+                c[ax] = int(rng.integers(0, N[ax] - a)) if rng.random() < 0.5 else int(rng.integers(a, N[ax]))
+                case["centre"], ck = tuple(c), "tip_inside"
+                case["sigma_out"] = float(rng.choice([0.4, 0.6, 0.8, 1.0, 1.2]))
+            else:
+                ck = str(rng.choice(["default", "anywhere", "face", "corner"]))
+                rr = [int(rng.integers(1, 4)), int(rng.integers(1, 6)), int(rng.integers(10, 61))]
+                case["radii"] = tuple(int(v) for v in rng.permutation(rr))
         else:
             ck = str(rng.choice(["default", "interior", "anywhere", "face", "corner"]))
             case["radii"] = tuple(_radius(rng, (n,), str(rng.choice(["small", "medium", "large", "beyond"]))) for n in N)
@@ -604,7 +651,11 @@ def gen_shape(rng, cls, tier):
                 break
         case["radii"], case["t"] = radii, t
         case["calls"] = _soft_calls(rng, shell=True)
-    case["N"], case["centre"], case["centre_kind"] = N, _centre(rng, N, ck), ck
+    if "centre" not in case:
+        case["centre"] = _centre(rng, N, ck)
+    case["N"], case["centre_kind"] = N, ck
+    if "sigma_out" in case:
+        case["calls"][1]["sigma"] = case.pop("sigma_out")
     case["size_fmt"] = _size_fmt(rng, N)
     case["centre_fmt"] = str(rng.choice(["list", "tuple", "array"]))
     # non-triviality from the analytic shape
@@ -983,7 +1034,7 @@ def extra(ctx):
     thorough = ctx.tier == "thorough"
     N = (6, 7, 8)
     n = 0
-    radii = [1, 2, 3, 5, 9] if not thorough else list(range(0, 13))
+    radii = [1, 2, 3, 5, 9] if not thorough else list(range(1, 13))
     for c in np.ndindex(*N):
         for r in radii:
             ctx.call("spherical_mask", cm.spherical_mask, N, radius=r, center=c)
